@@ -162,7 +162,7 @@ def c_value(spec):
 
 
 def enc(case, obs):
-    if "EXC" in obs or case.get("prefixes"):
+    if "EXC" in obs or case.get("prefixes") or any(isinstance(x, float) for sp in case["values"].values() for x in sp):
         return None
     prov = clist(["(%s, %s)" % (cstr(c), c_value(s)) for c, s in case["values"].items()], "ustr * cvalue")
     return "(%s, %s)" % (prov, clist([cstr(t) for t in case["tags"]], "ustr")), cbool(obs["exclude"])
@@ -173,13 +173,15 @@ def suites(tier, seed):
     thorough = tier == "thorough"
     universe = ["%s.with_%s=%s" % (p, c, v) for p in PREFIXES for c in CATS for v in VALUES] + ORDINARY
     specs = [None, ("none",), ("str", "a"), ("str", "b", "lazy"), ("strobj", "a"), ("num", 10, "eq"), ("num", 10, "ge"),
-             ("num", 9, "le"), ("num", 11, "lt", "lazy"), ("bool", True), ("bool", False, "lazy"), ("str", "zz")]
+             ("num", 9, "le"), ("num", 11, "lt", "lazy"), ("bool", True), ("bool", False, "lazy"), ("str", "zz"),
+             # current values that are no whole numbers (compared as they are; the Coq model has integers only: oracle alone)
+             ("num", 10.5, "eq"), ("num", 9.5, "le"), ("num", 10.5, "ge", "lazy"), ("num", 10.5, "lt")]
     cases = []
 
     def add(tags, rnd_values=True):
         values = {}
         for c in CATS:
-            s = rnd.choice(specs)
+            s = rnd.choice(specs[:-4] if rnd.random() < 0.93 else specs[-4:])     # the non-integer numbers are rare: they bypass the model
             if s is not None:
                 values[c] = list(s)
         case = {"tags": list(tags), "values": values, "provider": rnd.choice(["dict", "atvp", "composite"])}
